@@ -64,6 +64,14 @@ type blobAccessMutableProtoStore[T any, TProto interface {
 	lock           sync.Mutex
 	handles        map[digest.Digest]*blobAccessMutableProtoHandle[T, TProto]
 	handlesToWrite []*blobAccessMutableProtoHandle[T, TProto]
+
+	// The number of Get() calls per digest that did not find a
+	// handle and are reading the message from storage. A handle
+	// may not be discarded while such calls exist, as they may have
+	// read storage before the handle's message was written. They
+	// need to adopt the handle, as opposed to inserting a new one
+	// holding stale data.
+	readsInProgress map[digest.Digest]int
 }
 
 // NewBlobAccessMutableProtoStore creates an instance of
@@ -91,6 +99,7 @@ func NewBlobAccessMutableProtoStore[T any, TProto interface {
 		initialSizeClassCache:   initialSizeClassCache,
 		maximumMessageSizeBytes: maximumMessageSizeBytes,
 		handles:                 map[digest.Digest]*blobAccessMutableProtoHandle[T, TProto]{},
+		readsInProgress:         map[digest.Digest]int{},
 	}
 }
 
@@ -114,6 +123,8 @@ func (ss *blobAccessMutableProtoStore[T, TProto]) Get(ctx context.Context, reduc
 	handleToReturn, hasExistingHandle := ss.handles[reducedActionDigest]
 	if hasExistingHandle {
 		handleToReturn.increaseUseCount()
+	} else {
+		ss.readsInProgress[reducedActionDigest]++
 	}
 
 	// Extract a couple of handles from previous actions that we can
@@ -185,6 +196,11 @@ func (ss *blobAccessMutableProtoStore[T, TProto]) Get(ctx context.Context, reduc
 		ss.lock.Lock()
 		if hasExistingHandle {
 			handleToReturn.decreaseUseCount()
+		} else if ss.readFinishedLocked(reducedActionDigest) {
+			// A handle may have been retained on our behalf.
+			if existingHandle, ok := ss.handles[reducedActionDigest]; ok {
+				existingHandle.removeOrQueueForWriteLocked()
+			}
 		}
 		ss.lock.Unlock()
 		return nil, err
@@ -195,6 +211,7 @@ func (ss *blobAccessMutableProtoStore[T, TProto]) Get(ctx context.Context, reduc
 		// the case that another thread beat us to it. Discard
 		// our newly created handle in that case.
 		ss.lock.Lock()
+		ss.readFinishedLocked(reducedActionDigest)
 		if existingHandle, ok := ss.handles[reducedActionDigest]; ok {
 			handleToReturn = existingHandle
 			handleToReturn.increaseUseCount()
@@ -205,6 +222,18 @@ func (ss *blobAccessMutableProtoStore[T, TProto]) Get(ctx context.Context, reduc
 		ss.lock.Unlock()
 	}
 	return handleToReturn, nil
+}
+
+// readFinishedLocked is called when a Get() call that read a message
+// from storage is done. It returns true when no other calls are reading
+// the message with the same digest.
+func (ss *blobAccessMutableProtoStore[T, TProto]) readFinishedLocked(reducedActionDigest digest.Digest) bool {
+	if ss.readsInProgress[reducedActionDigest] > 1 {
+		ss.readsInProgress[reducedActionDigest]--
+		return false
+	}
+	delete(ss.readsInProgress, reducedActionDigest)
+	return true
 }
 
 type blobAccessMutableProtoHandle[T any, TProto interface {
@@ -270,6 +299,13 @@ func (sh *blobAccessMutableProtoHandle[T, TProto]) removeOrQueueForWriteLocked()
 	if sh.useCount == 0 && !sh.writing {
 		ss := sh.store
 		if sh.writtenVersion == sh.currentVersion {
+			if ss.readsInProgress[sh.digest] > 0 {
+				// Another Get() call is reading this
+				// message from storage. Keep the handle,
+				// so that the call uses it instead of
+				// what it read, which may be stale.
+				return
+			}
 			// No changes were made to the message. Simply
 			// discard this handle.
 			delete(ss.handles, sh.digest)
